@@ -42,9 +42,9 @@ Section DeliveryProofs.
   Notation athen := (andthen pstate event).
 
   (** reader state at a frame boundary *)
-  Definition at_header (t : transport) (b : bool) : rstate pstate :=
+  Definition at_header (t : transport) (b : gstate) : rstate pstate :=
     mk_r (mk_p (Finished t) true b) 18%nat [].
-  Definition at_body (t : transport) (b : bool) (len : nat) : rstate pstate :=
+  Definition at_body (t : transport) (b : gstate) (len : nat) : rstate pstate :=
     mk_r (mk_p (Finished t) false b) (len + 16)%nat [].
 
   Definition len_ok (m : bytes) : Prop := MIN_MSG_LEN <= blen m <= LN_MAX_MSG_LEN.
@@ -63,7 +63,7 @@ Section DeliveryProofs.
     intros Hlen.
     rewrite feed_bytes_chunk; [|intros Hn; rewrite Hn in Hlen; discriminate | cbn; lia].
     unfold Framing.complete, at_header. cbn [r_s r_want r_buf app].
-    unfold peer_handle. cbn [p_enc p_is_header p_init get_noise_step].
+    unfold peer_handle. cbn [p_enc p_is_header p_gate get_noise_step].
     destruct (dec_header t hdr) as [[len t']|]; [|reflexivity].
     destruct (len <? MIN_MSG_LEN); [reflexivity|].
     rewrite andthen_alive. reflexivity.
@@ -84,7 +84,7 @@ Section DeliveryProofs.
     intros Hlen.
     rewrite feed_bytes_chunk; [|intros Hn; rewrite Hn in Hlen; cbn in Hlen; lia | cbn; lia].
     unfold Framing.complete, at_body. cbn [r_s r_want r_buf app].
-    unfold peer_handle. cbn [p_enc p_is_header p_init get_noise_step].
+    unfold peer_handle. cbn [p_enc p_is_header p_gate get_noise_step].
     destruct (dec_body t body) as [[m t']|]; [|reflexivity].
     destruct (gate_msg b m) as [evs [b'|]]; reflexivity.
   Qed.
@@ -319,12 +319,12 @@ Section DeliveryProofs.
     match p_enc p with
     | OutPreActOne _ _ _ => False
     | Finished _ => True
-    | _ => p_init p = false
+    | _ => g_init (p_gate p) = false
     end.
 
   Definition phase_of (p : pstate) : Z :=
     match p_enc p with
-    | Finished _ => if p_init p then 2 else 1
+    | Finished _ => if g_init (p_gate p) then 2 else 1
     | _ => 0
     end.
 
@@ -336,20 +336,62 @@ Section DeliveryProofs.
     cbn [app order_run]. destruct (order_step p e); [apply IH | reflexivity].
   Qed.
 
-  Lemma gate_msg_order b m :
-    let '(evs, r) := gate_msg b m in
+  Lemma gate_msg_order g m :
+    let '(evs, r) := gate_msg g m in
     match r with
-    | Some b' => order_run (if b then 2 else 1) evs = Some (if b' then 2 else 1)
-    | None => order_run (if b then 2 else 1) evs <> None
+    | Some g' => order_run (if g_init g then 2 else 1) evs = Some (if g_init g' then 2 else 1)
+    | None => order_run (if g_init g then 2 else 1) evs <> None
     end.
   Proof.
-    unfold PeerGate.gate_msg.
-    destruct (decode m) as [ty|e ty].
-    - destruct (ty =? TYPE_INIT).
-      + destruct (init_ok m); destruct b; cbn; try discriminate; reflexivity.
-      + destruct b; cbn; try discriminate.
+    unfold PeerGate.gate_msg, deliver.
+    destruct g as [ini batch]. cbn [g_init g_batch].
+    destruct (decode m) as [k|e ty].
+    - destruct k as [|chan size cs|chan| |ty].
+      + destruct (init_ok m); destruct ini; cbn; try discriminate; reflexivity.
+      + destruct ini; cbn; try discriminate.
+        destruct batch as [[[bc bs] bn]|]; cbn; try discriminate.
+        destruct (size <=? 1); cbn; [reflexivity|].
+        destruct (BATCH_SIZE_LIMIT <? size); cbn; [discriminate|].
+        destruct cs; cbn; reflexivity.
+      + destruct ini; cbn; try discriminate.
+        destruct batch as [[[bc bs] bn]|]; cbn.
+        * destruct (negb (beqb chan bc)); cbn; [discriminate|].
+          destruct (bn + 1 =? bs); cbn; [|reflexivity].
+          destruct (handler_ok m); cbn; [reflexivity | discriminate].
+        * destruct (handler_ok m); cbn; [reflexivity | discriminate].
+      + destruct ini; cbn; try discriminate.
+        destruct batch as [[[bc bs] bn]|]; cbn; [discriminate | reflexivity].
+      + destruct ini; cbn; try discriminate.
+        destruct batch as [[[bc bs] bn]|]; cbn; [discriminate|].
         destruct (handler_ok m); cbn; [reflexivity | discriminate].
-    - destruct (decode_policy e ty); destruct b; cbn; try discriminate; reflexivity.
+    - destruct (decode_policy e ty); destruct ini; cbn; try discriminate; reflexivity.
+  Qed.
+
+  (** THE GATE, for every message kind including the batch path: while the peer's Init has not
+      been accepted, no message reaches a handler, no batch is opened, and anything that decodes
+      to something other than Init disconnects *)
+  Theorem gate_closed_before_init g m :
+    g_init g = false ->
+    let '(evs, r) := gate_msg g m in
+    ~ In EvDeliver evs /\
+    (forall g', r = Some g' -> g_batch g' = g_batch g) /\
+    (forall k, decode m = DOk k -> k <> KInit -> r = None).
+  Proof.
+    intros Hi. unfold PeerGate.gate_msg, deliver. destruct g as [ini batch]. cbn [g_init g_batch] in *. subst ini.
+    destruct (decode m) as [k|e ty].
+    - destruct k as [|chan size cs|chan| |ty]; cbn.
+      + destruct (init_ok m); cbn.
+        * split; [intros [H0|[H0|[]]]; discriminate|]. split; [intros g' [= <-]; reflexivity|].
+          intros k [= <-] Hk. contradiction.
+        * split; [intros [H0|[]]; discriminate|]. split; [discriminate|]. intros; reflexivity.
+      + split; [intros [H0|[]]; discriminate|]. split; [discriminate|]. intros; reflexivity.
+      + split; [intros [H0|[]]; discriminate|]. split; [discriminate|]. intros; reflexivity.
+      + split; [intros [H0|[]]; discriminate|]. split; [discriminate|]. intros; reflexivity.
+      + split; [intros [H0|[]]; discriminate|]. split; [discriminate|]. intros; reflexivity.
+    - destruct (decode_policy e ty); cbn.
+      + split; [intros [H0|[H0|[]]]; discriminate|]. split; [intros g' [= <-]; reflexivity|]. intros k Hk; discriminate.
+      + split; [intros [H0|[H0|[]]]; discriminate|]. split; [intros g' [= <-]; reflexivity|]. intros k Hk; discriminate.
+      + split; [intros [H0|[]]; discriminate|]. split; [discriminate|]. intros k Hk; discriminate.
   Qed.
 
   Lemma peer_handle_inv p c : pinv p ->
@@ -360,7 +402,7 @@ Section DeliveryProofs.
     end.
   Proof.
     unfold pinv, phase_of, peer_handle.
-    destruct p as [e hdr ini]. cbn [p_enc p_is_header p_init].
+    destruct p as [e hdr ini]. cbn [p_enc p_is_header p_gate].
     destruct e as [ie their st|ie their st|st|iep re tk st|t]; cbn [get_noise_step]; intros Hinv.
     - contradiction.
     - (* act two *)
@@ -368,12 +410,12 @@ Section DeliveryProofs.
       destruct (inbound_noise_act dh pk_valid hkdf2 H open st c ie) as [[[re tk2] st1]|]; [|cbn; discriminate].
       destruct (hkdf_step hkdf2 _ _) as [st2 tk].
       destruct (hkdf2 (hs_ck st2) []) as [sk rk].
-      cbn [p_enc p_init]. subst ini. cbn. repeat split; lia.
+      cbn [p_enc p_gate]. rewrite Hinv. cbn. repeat split; lia.
     - (* act one *)
       cbn [Noise.process_act_one_with_keys].
       destruct (inbound_noise_act dh pk_valid hkdf2 H open st c our_node_secret) as [[[tp tk] st1]|]; [|cbn; discriminate].
       destruct (outbound_noise_act dh pub hkdf2 H seal st1 our_ephemeral tp) as [[res tk2] st2].
-      cbn [p_enc p_init]. subst ini. cbn. repeat split; lia.
+      cbn [p_enc p_gate]. rewrite Hinv. cbn. repeat split; lia.
     - (* act three *)
       cbn [Noise.process_act_three].
       destruct (negb (nth 0 c 0 =? 0)); [cbn; discriminate|].
@@ -382,15 +424,15 @@ Section DeliveryProofs.
       destruct (hkdf_step hkdf2 _ _) as [st2 tk3].
       destruct (open tk3 0 (hs_h st2) (skipn 50 c)); [|cbn; discriminate].
       destruct (hkdf2 (hs_ck st2) []) as [rk sk].
-      cbn [p_enc p_init]. subst ini. cbn. repeat split; lia.
+      cbn [p_enc p_gate]. rewrite Hinv. cbn. repeat split; lia.
     - (* transport *)
       destruct hdr.
       + destruct (dec_header t c) as [[len t']|]; [|cbn; discriminate].
         destruct (len <? MIN_MSG_LEN); [cbn; discriminate|].
-        cbn [p_enc p_init]. split; [exact I|]. split; [lia | reflexivity].
+        cbn [p_enc p_gate]. split; [exact I|]. split; [lia | reflexivity].
       + destruct (dec_body t c) as [[m t']|]; [|cbn; discriminate].
         pose proof (gate_msg_order ini m) as Hg.
-        destruct (gate_msg ini m) as [evs [b'|]]; cbn [p_enc p_init].
+        destruct (gate_msg ini m) as [evs [b'|]]; cbn [p_enc p_gate].
         * split; [exact I|]. split; [lia | exact Hg].
         * exact Hg.
   Qed.
